@@ -33,6 +33,7 @@ type Stats struct {
 	WriteErrs, Shorts int
 	Closes            int
 	BlockedReads      int
+	EOFWithData       int
 }
 
 // Pipe is one direction of a connection (or a file on the sim disk).
@@ -76,6 +77,9 @@ type Pipe struct {
 	ShortN    int
 	WErrStick bool // all later writes fail too
 	RErrStick bool // all later reads fail too (a failed transport stays failed)
+	// EOFData lets a read that drains the stream return its bytes together with
+	// io.EOF (tape-chosen), as the io.Reader contract allows.
+	EOFData bool
 
 	RErrFired    bool
 	RErrConsumed int64 // bytes handed to the reader up to and including the failing read
@@ -204,6 +208,10 @@ func (p *Pipe) Read(b []byte) (int, error) {
 	}
 	copy(b, p.buf[:n])
 	p.consume(n)
+	if p.EOFData && len(p.buf) == 0 && p.eof != 0 && p.Tape.Next(2) == 1 {
+		p.St.EOFWithData++
+		return n, io.EOF
+	}
 	return n, nil
 }
 
